@@ -22,7 +22,10 @@ pub fn len_near(b: u64, maxk: u64) -> BoxedStrategy<u64> {
 pub fn content(b: u64, max_blocks: u64, max_bytes: u64) -> BoxedStrategy<Content> {
     let cap = std::cmp::max(1, std::cmp::min(max_bytes, b.saturating_mul(max_blocks)));
     let maxk = std::cmp::max(1, std::cmp::min(6, cap / std::cmp::max(1, b)));
-    let seg = (prop_oneof![5 => Just(0u8), 3 => Just(1u8), 1 => Just(2u8), 1 => Just(3u8)], len_near(b, maxk), 0u8..8, prop_oneof![2 => Just(0u64), 1 => Just(4096u64), 1 => Just(65536u64)]);
+    // long runs as well: up to 3000 blocks in one segment (many block jobs for one range)
+    let maxk_big = std::cmp::max(1, std::cmp::min(3000, cap / std::cmp::max(1, b)));
+    let seg_len = prop_oneof![8 => len_near(b, maxk), 2 => len_near(b, maxk_big)];
+    let seg = (prop_oneof![5 => Just(0u8), 3 => Just(1u8), 1 => Just(2u8), 1 => Just(3u8)], seg_len, 0u8..8, prop_oneof![2 => Just(0u64), 1 => Just(4096u64), 1 => Just(65536u64)]);
     (prop::collection::vec(seg, 1..5), any::<bool>())
         .prop_map(move |(segs, sync)| {
             let mut out = vec![];
